@@ -453,4 +453,140 @@ Section Coh.
     - inversion Hh; subst. apply (ps_find_tok_some _ _ _ _ Et).
     - apply (ps_find_ck_some _ _ _ _ Hh).
   Qed.
+
+  (* ---------------------------------------------------------------- a new observer *)
+  Lemma ps_inv_add : forall name m A G r tuple token ck pkt kn,
+    ps_inv m A G -> ps_find name m = Some r -> psr_observable r = true ->
+    req pkt = Some (name, token, ck) -> len tuple = psc_lt c -> 1 <= len pkt <= PS_MAX ->
+    (forall s, In s (psr_subs r) -> ~ (pss_tuple s = tuple /\ pss_token s = token)) ->
+    (forall s, In s (psr_subs r) -> ~ (pss_tuple s = tuple /\ pss_ck s = ck)) ->
+    len kn = PS_KEY -> (forall n s, ps_insub m n s -> pss_key s <> kn) ->
+    let sn := mkSub kn tuple token ck pkt in
+    let calls := [CObsAdded (ps_obs_of c sn); CCntTrack name (psr_observe r)] in
+    Forall (ps_call_wf (psc_la c) (psc_lt c)) calls /\
+    ps_inv (ps_replace (mkRsrc name true (psr_observe r) (sn :: psr_subs r)) m)
+           (ps_abs_calls calls A) (G ++ [(name, tuple, token, psr_observe r)]).
+  Proof.
+    intros name m A G r tuple token ck pkt kn Hi Hf Hobs Hreq Htu Hpk Hnt Hnc Hkl Hfresh sn calls.
+    destruct (iv_res _ _ _ Hi name r Hf) as (Hnok & Hrange & Hnd & _).
+    set (new := mkRsrc name true (psr_observe r) (sn :: psr_subs r)).
+    set (v := psr_observe r).
+    assert (Hcw : Forall (ps_call_wf (psc_la c) (psc_lt c)) calls).
+    { subst calls. constructor; [|constructor; [|constructor]].
+      - cbn [ps_call_wf]. unfold ps_obs_wf, ps_obs_of.
+        cbn [pso_key pso_proto pso_listen pso_tuple pso_pkt pso_osc pss_key pss_tuple pss_pkt sn].
+        repeat split; try assumption; try lia.
+      - apply (ps_track_wf m A G name r Hi Hf). lia. }
+    split; [exact Hcw|].
+    assert (HA : ps_abs_wf (psc_la c) (psc_lt c) (ps_abs_calls calls A)).
+    { apply (ps_abs_calls_wf (fun _ _ => 0) c); [apply (iv_wf _ _ _ Hi)|exact Hcw]. }
+    assert (Hiff : forall n s, ps_insub (ps_replace new m) n s <->
+                               ps_insub m n s \/ (n = name /\ s = sn)).
+    { intros n s. rewrite (ps_insub_replace new m name r n s eq_refl Hf). cbn [psr_subs new In]. split.
+      - intros [[-> [<-|Hin]]|[Hne Hin]].
+        + right. split; reflexivity.
+        + left. exists r. split; assumption.
+        + left. exact Hin.
+      - intros [(r' & Hf' & Hin)|[-> ->]].
+        + destruct (ps_bytes_dec n name) as [->|Hne].
+          * rewrite Hf in Hf'. inversion Hf'; subst r'. left. split; [reflexivity|right; exact Hin].
+          * right. split; [exact Hne|exists r'; split; assumption].
+        + left. split; [reflexivity|left; reflexivity]. }
+    assert (Hfind : forall n, ps_find n (ps_replace new m) = if ps_beq n name then Some new else ps_find n m)
+      by (intro n; apply (ps_find_replace_any new m name r); [reflexivity|exact Hf]).
+    (* the files *)
+    assert (Hnokey : forall rec, In rec (ps_ol (ab_obs A)) -> pso_key rec <> kn).
+    { intros rec Hr. destruct (iv_obs2 _ _ _ Hi rec Hr) as (n & s & Hs & ->). cbn [ps_obs_of pso_key].
+      apply (Hfresh n s Hs). }
+    assert (Hobsf : ps_ol (ab_obs (ps_abs_calls calls A)) = ps_ol (ab_obs A) ++ [ps_obs_of c sn]).
+    { subst calls. cbn [ps_abs_calls ps_abs_call ab_obs]. rewrite ps_ol_add by reflexivity. f_equal.
+      apply ps_filter_id. intros rec Hr. cbn [ps_obs_of pso_key pss_key sn].
+      rewrite ps_beq_false; [reflexivity|apply Hnokey; exact Hr]. }
+    assert (Hcntf : ps_ol (ab_cnt (ps_abs_calls calls A)) =
+                    ps_cnt_without name (ps_ol (ab_cnt A)) ++ [(name, v)]).
+    { subst calls. cbn [ps_abs_calls ps_abs_call ab_cnt]. apply ps_ol_add. reflexivity. }
+    assert (Hdynf : ab_dyn (ps_abs_calls calls A) = ab_dyn A) by reflexivity.
+    assert (Hc3 : forall n, (exists x, In (n, x) (ps_ol (ab_cnt A))) ->
+                    exists x, In (n, x) (ps_ol (ab_cnt (ps_abs_calls calls A)))).
+    { intros n [x Hin]. rewrite Hcntf. destruct (ps_bytes_dec n name) as [->|Hne].
+      - exists v. apply ps_cnt_set_in. right. split; reflexivity.
+      - exists x. apply ps_cnt_set_in. left. split; assumption. }
+    assert (Hlinev : In (name, v) (ps_ol (ab_cnt (ps_abs_calls calls A)))).
+    { rewrite Hcntf. apply ps_cnt_set_in. right. split; reflexivity. }
+    constructor.
+    - rewrite (ps_names_replace new m name eq_refl). apply (iv_names _ _ _ Hi).
+    - intros n r' Hf'. rewrite Hfind in Hf'. destruct (ps_beq n name) eqn:En.
+      + apply ps_beq_eq in En. inversion Hf'; subst r' n. cbn [psr_observe psr_subs psr_observable new].
+        split; [exact Hnok|]. split; [exact Hrange|]. split; [|reflexivity].
+        cbn [map pss_key sn]. constructor; [|exact Hnd].
+        intro Hin. apply in_map_iff in Hin. destruct Hin as (s & Ek & Hs).
+        apply (Hfresh name s); [exists r; split; assumption|exact Ek].
+      + apply (iv_res _ _ _ Hi n r' Hf').
+    - intros n s Hs. apply Hiff in Hs. destruct Hs as [Hs|[-> ->]]; [apply (iv_sub _ _ _ Hi n s Hs)|].
+      cbn [pss_pkt pss_token pss_ck pss_key pss_tuple sn]. repeat split; try assumption; lia.
+    - intros n1 s1 n2 s2 H1 H2 Ek. apply Hiff in H1. apply Hiff in H2.
+      destruct H1 as [H1|[-> ->]]; destruct H2 as [H2|[-> ->]].
+      + apply (iv_key _ _ _ Hi); assumption.
+      + exfalso. apply (Hfresh n1 s1 H1). exact Ek.
+      + exfalso. apply (Hfresh n2 s2 H2). symmetry. exact Ek.
+      + split; reflexivity.
+    - intros n s1 s2 H1 H2 Et Ek. apply Hiff in H1. apply Hiff in H2.
+      destruct H1 as [H1|[-> ->]]; destruct H2 as [H2|[E2 ->]].
+      + apply (iv_tok _ _ _ Hi n); assumption.
+      + subst n. destruct H1 as (r' & Hf' & Hin). rewrite Hf in Hf'. inversion Hf'; subst r'.
+        exfalso. apply (Hnt s1 Hin). split; assumption.
+      + destruct H2 as (r' & Hf' & Hin). rewrite Hf in Hf'. inversion Hf'; subst r'.
+        exfalso. apply (Hnt s2 Hin). split; symmetry; assumption.
+      + reflexivity.
+    - intros n s1 s2 H1 H2 Et Ek. apply Hiff in H1. apply Hiff in H2.
+      destruct H1 as [H1|[-> ->]]; destruct H2 as [H2|[E2 ->]].
+      + apply (iv_ck _ _ _ Hi n); assumption.
+      + subst n. destruct H1 as (r' & Hf' & Hin). rewrite Hf in Hf'. inversion Hf'; subst r'.
+        exfalso. apply (Hnc s1 Hin). split; assumption.
+      + destruct H2 as (r' & Hf' & Hin). rewrite Hf in Hf'. inversion Hf'; subst r'.
+        exfalso. apply (Hnc s2 Hin). split; symmetry; assumption.
+      + reflexivity.
+    - exact HA.
+    - intros n r' Hf' Ho'. rewrite Hdynf. rewrite Hfind in Hf'. destruct (ps_beq n name) eqn:En.
+      + apply ps_beq_eq in En. subst n. apply (iv_dyn _ _ _ Hi name r Hf Hobs).
+      + apply (iv_dyn _ _ _ Hi n r' Hf' Ho').
+    - rewrite Hdynf. apply (iv_dynf _ _ _ Hi).
+    - intros n s Hs. rewrite Hobsf. apply in_or_app. apply Hiff in Hs.
+      destruct Hs as [Hs|[-> ->]]; [left; apply (iv_obs1 _ _ _ Hi n s Hs)|right; left; reflexivity].
+    - intros rec Hr. rewrite Hobsf in Hr. apply in_app_or in Hr. destruct Hr as [Hr|[<-|[]]].
+      + destruct (iv_obs2 _ _ _ Hi rec Hr) as (n & s & Hs & E). exists n, s.
+        split; [apply Hiff; left; exact Hs|exact E].
+      + exists name, sn. split; [apply Hiff; right; split; reflexivity|reflexivity].
+    - rewrite Hobsf, map_app. cbn [map ps_obs_of pso_key pss_key sn].
+      pose proof (iv_obs3 _ _ _ Hi) as H3.
+      assert (Hni : ~ In kn (map pso_key (ps_ol (ab_obs A)))).
+      { intro Hin. apply in_map_iff in Hin. destruct Hin as (rec & Ek & Hr). exact (Hnokey rec Hr Ek). }
+      clear -H3 Hni. induction (map pso_key (ps_ol (ab_obs A))) as [|y l IH]; cbn [List.app].
+      + constructor; [intros []|constructor].
+      + inversion H3 as [|? ? Hy Hl]; subst. constructor.
+        * intro Hin. apply in_app_or in Hin. destruct Hin as [Hin|[E|[]]]; [contradiction|].
+          apply Hni. left. symmetry. exact E.
+        * apply IH; [exact Hl|]. intro Hin. apply Hni. right. exact Hin.
+    - intros n x Hin. rewrite Hcntf in Hin. apply ps_cnt_set_in in Hin. unfold ps_has. rewrite Hfind.
+      destruct Hin as [[Hne Hold]|[-> _]].
+      + rewrite (ps_beq_false n name Hne). apply (iv_cnt0 _ _ _ Hi n x Hold).
+      + rewrite ps_beq_refl. discriminate.
+    - rewrite Hcntf. apply ps_cnt_set_nodup. apply (iv_cnt1 _ _ _ Hi).
+    - intros n x r' Hin Hf'. rewrite Hcntf in Hin. apply ps_cnt_set_in in Hin. rewrite Hfind in Hf'.
+      destruct Hin as [[Hne Hold]|[-> ->]].
+      + rewrite (ps_beq_false n name Hne) in Hf'. apply (iv_cnt2 _ _ _ Hi n x r' Hold Hf').
+      + rewrite ps_beq_refl in Hf'. inversion Hf'; subst r'. cbn [psr_observe new]. fold v.
+        pose proof (ps_rnd_ge (psc_freq c) freq_pos v). subst v. lia.
+    - intros n r' Hf' Hsub'. rewrite Hfind in Hf'. destruct (ps_beq n name) eqn:En.
+      + apply ps_beq_eq in En. subst n. exists v. exact Hlinev.
+      + apply Hc3. apply (iv_cnt3 _ _ _ Hi n r' Hf' Hsub').
+    - intros n tu tok v0 Hin. apply in_app_or in Hin. destruct Hin as [Hin|[E|[]]].
+      + destruct (iv_sent _ _ _ Hi n tu tok v0 Hin) as (r' & Hf' & Hv & Hl).
+        rewrite Hfind. destruct (ps_beq n name) eqn:En.
+        * apply ps_beq_eq in En. subst n. rewrite Hf in Hf'. inversion Hf'; subst r'.
+          exists new. split; [reflexivity|]. split; [exact Hv|apply Hc3; exact Hl].
+        * exists r'. split; [exact Hf'|]. split; [exact Hv|apply Hc3; exact Hl].
+      + inversion E; subst n tu tok v0. rewrite Hfind, ps_beq_refl. exists new.
+        split; [reflexivity|]. split; [cbn [psr_observe new]; lia|exists v; exact Hlinev].
+  Qed.
 End Coh.
